@@ -103,7 +103,7 @@ Proof.
   unfold start_message. intro H. cbv zeta in H.
   destruct (parse_request o (removelast ls)) as [m|e|c t]; try discriminate.
   destruct (get_header h_content_length (m_headers m)) as [v|].
-  - destruct (nonempty v && forallb dec_digit v); [|discriminate].
+  - destruct (nonempty v && forallb dec_digit v && (lenN v <=? int_max_str_digits)); [|discriminate].
     destruct (has_header h_sec_websocket_key1 (m_headers m)); [discriminate|].
     destruct (negb (request_head_has_no_body && mem_bytes (m_method m) empty_body_methods) &&
               ((0 <? parse_dec v) || m_chunked m)) eqn:Eb.
